@@ -5,11 +5,11 @@ import random
 from . import flow, tlaval, tlc, writers_rec
 
 
-def model(kinds, maxlines, props=True):
+def model(kinds, maxlines, props=True, skips=False):
     kind = " @@ ".join('(%d :> "%s")' % (i + 1, k) for i, k in enumerate(kinds))
     root = tlc.wrapper("MCWriters", "WritersImpl", {"cKind": kind})
     cfg = ["SPECIFICATION Spec", "CONSTANTS", " W = {%s}" % ", ".join(str(i + 1) for i in range(len(kinds))),
-           " KindOf <- cKind", " MaxLines = %d" % maxlines, "VIEW view"]
+           " KindOf <- cKind", " MaxLines = %d" % maxlines, " TeardownSkipsUserFiles = %s" % ("TRUE" if skips else "FALSE"), "VIEW view"]
     if props:
         cfg += ["INVARIANT NoDuplicates", "INVARIANT Delivery", "INVARIANT OnceInOrder", "PROPERTY Flushed", "PROPERTY TornDown"]
     return root, "\n".join(cfg) + "\n"
@@ -26,14 +26,16 @@ class P(flow.Plan):
 
     def model_runs(self, tier):
         if tier == "thorough":
-            root, cfg = model(["path", "binary", "custom", "path"], 3)
+            root, cfg = model(["path", "binary", "custom", "path", "ufile"], 3)
         else:
-            root, cfg = model(["path", "binary", "custom"], 3)
-        return [("writers", "MCWriters", cfg, root, [])]
+            root, cfg = model(["path", "binary", "ufile"], 3)
+        # the code before fix F23 (teardown left a user-opened file's buffer alone) must be told apart by the model
+        root2, cfg2 = model(["path", "ufile"], 3, skips=True)
+        return [("writers", "MCWriters", cfg, root, []), ("writers-F23", "MCWriters", cfg2, root2, ["Flushed"])]
 
     def behaviours(self, tier, sd):
-        kinds = ["path", "text", "custom", "path"]
-        root, cfg = model(kinds, 8, props=False)
+        kinds = ["path", "text", "ufile_t", "path"]
+        root, cfg = model(["ufile" if k.startswith("ufile") else k for k in kinds], 8, props=False)
         nb = 300 if tier == "thorough" else 60
         r, files = tlc.simulate("MCWriters", cfg, num=nb, depth=25, seed=sd % (2 ** 31), root_text=root)
         traces, inputs = [], []
@@ -55,7 +57,7 @@ class P(flow.Plan):
         traces, inputs = [], []
         for i in range(n):
             rng = random.Random(sd * 65537 + i)
-            kinds = [rng.choice(["path", "binary", "text", "custom"]) for _ in range(rng.randint(2, 5))]
+            kinds = [rng.choice(["path", "binary", "text", "custom", "ufile_b", "ufile_t"]) for _ in range(rng.randint(2, 5))]
             eol = rng.choice(["\n", "\r\n"])
             descs = []
             for _ in range(rng.randint(8, 30)):
